@@ -2,6 +2,7 @@
 C06 (base chains), C07 (subscriptions), C08 (entry point agreement),
 C09 (bookkeeping).  DESIGN 3.4 - 3.9."""
 import gc
+import os
 
 from zope.interface import (
     Interface, alsoProvides, classImplements, classImplementsOnly,
@@ -46,7 +47,7 @@ class Val:
 class RW:
     """Registry world + reference model."""
 
-    def __init__(self, ctx, rng, tier, flavour=None, maxregs=4, with_objs=True):
+    def __init__(self, ctx, rng, tier, flavour=None, maxregs=4, with_objs=True, chainy=False):
         self.ctx, self.rng = ctx, rng
         big = tier == 'thorough'
         self.R = util.gen_iface_dag(rng, rng.randint(2, 8 if big else 6), prefix='R', maxb=2)
@@ -68,11 +69,14 @@ class RW:
                 if rng.random() < 0.4:
                     directlyProvides(o, *rng.sample(self.R, rng.randint(1, min(2, len(self.R)))))
                 self.objs.append(o)
-        self.flavour = flavour or rng.choice(['adapter', 'verifying'])
+        self.flavour = flavour or os.environ.get('ZMON_FLAVOUR') or rng.choice(['adapter', 'verifying'])
         self.Reg = FLAVOURS[self.flavour]
         self.regs, self.pyreg = [], []
-        for i in range(rng.randint(1, maxregs)):
+        for i in range(rng.randint(3 if chainy else 1, maxregs)):
             idx = rng.sample(range(len(self.regs)), min(len(self.regs), rng.choice([0, 1, 1, 2])))
+            if chainy and self.regs and rng.random() < 0.7:
+                # deep chains: build on the most recent registry (+ maybe another)
+                idx = [len(self.regs) - 1] + [j for j in idx if j != len(self.regs) - 1][:rng.choice([0, 0, 1])]
             try:
                 pc = type('PR%d' % i, tuple(self.pyreg[j] for j in idx) or (object,), {})
             except TypeError:
@@ -675,7 +679,407 @@ def run_c09(ctx, rng, job):
     ctx.shape(('c09', tuple(kinds)), nontrivial=sibling_removals > 0 or 'overwrite' in kinds)
 
 
-RUNNERS = {'C04': run_c04, 'C07': run_c07, 'C08': run_c08, 'C09': run_c09}
+
+# =============================================================================
+# C05  warm registry vs cold replay of the same mutation log
+
+def _counting(Reg):
+    """Registry flavour whose lookup object counts uncached computations (so a
+    warm call can be confirmed to have been served from the cache)."""
+    Base = Reg.LookupClass
+
+    class CountingLookup(Base):
+        n_uncached = 0
+
+        def _uncached_lookup(self, required, provided, name=''):
+            self.n_uncached += 1
+            return Base._uncached_lookup(self, required, provided, name)
+
+        def _uncached_lookupAll(self, required, provided):
+            self.n_uncached += 1
+            return Base._uncached_lookupAll(self, required, provided)
+
+        def _uncached_subscriptions(self, required, provided):
+            self.n_uncached += 1
+            return Base._uncached_subscriptions(self, required, provided)
+
+    class CountingRegistry(Reg):
+        LookupClass = CountingLookup
+    return CountingRegistry
+
+
+MUTATION_KINDS = ['register', 'unregister', 'subscribe', 'unsubscribe', 'registry_bases', 'spec_bases',
+                  'class_declaration', 'object_declaration']
+
+
+def run_c05(ctx, rng, job):
+    w = RW(ctx, rng, job['tier'], with_objs=True, maxregs=4, chainy=True)
+    big = job['tier'] == 'thorough'
+    CReg = _counting(w.Reg)
+    # replace the world's registries by counting ones (same shape)
+    shape = [[w.index_of(b) for b in r.__bases__] for r in w.regs]
+    w.regs = []
+    for bs in shape:
+        w.regs.append(CReg(tuple(w.regs[j] for j in bs)))
+    log = [(i, 'bases', list(bs)) for i, bs in enumerate(shape)]
+    sup = []
+    for c in [c for c in w.classes if len(c.__mro__) > 2][:1]:
+        o = c()
+        o.zname = 'sup_' + c.__name__
+        sup.append(super(c, o))
+
+    def apply(regs, entry):
+        ri, meth, args = entry
+        if meth == 'bases':
+            regs[ri].__bases__ = tuple(regs[j] for j in args)
+        else:
+            getattr(regs[ri], meth)(*args)
+
+    def cold():
+        rs = [w.Reg(()) for _ in shape]
+        for e in log:
+            apply(rs, e)
+        return rs
+
+    D = object()
+
+    def ask(rs, q):
+        ep, ri, req, prov, name, obs = q
+        r = rs[ri]
+        if ep == 'lookup':
+            return r.lookup(req, prov, name, D)
+        if ep == 'lookup1':
+            return r.lookup1(req[0], prov, name, D)
+        if ep == 'lookupAll':
+            return tuple(r.lookupAll(req, prov))
+        if ep == 'names':
+            return list(r.names(req, prov))
+        if ep == 'subscriptions':
+            return list(r.subscriptions(req, prov))
+        if ep == 'queryAdapter':
+            return r.queryAdapter(obs[0], prov, name, D)
+        if ep == 'adapter_hook':
+            return r.adapter_hook(prov, obs[0], name, D)
+        if ep == 'queryMultiAdapter':
+            return r.queryMultiAdapter(obs, prov, name, D)
+        if ep == 'subscribers':
+            return r.subscribers(obs, prov)
+        raise AssertionError(ep)
+
+    def same(a, b):
+        if isinstance(a, (list, tuple)) and isinstance(b, (list, tuple)):
+            return type(a) is type(b) and len(a) == len(b) and all(same(x, y) for x, y in zip(a, b))
+        if isinstance(a, (str, int)) or a is None:
+            return a == b
+        return a is b
+
+    def newq():
+        ep = rng.choice(ENTRY_POINTS)
+        ri = rng.randrange(len(w.regs))
+        ar = 1 if ep in ('lookup1', 'queryAdapter', 'adapter_hook') else rng.choice([0, 1, 1, 2])
+        obs = tuple(rng.choice(w.objs + sup) for _ in range(ar))
+        if ep in ('queryAdapter', 'adapter_hook', 'queryMultiAdapter', 'subscribers'):
+            req = None
+        else:
+            req = tuple(rng.choice(w.lookspecs()) for _ in range(ar))
+        if ep in ('subscriptions', 'subscribers'):
+            prov = rng.choice(w.P + [None])
+        else:
+            prov = rng.choice(w.P + [Interface])
+        return (ep, ri, req, prov, rng.choice(['', 'a']), obs)
+
+    def mutate():
+        k = rng.choice(MUTATION_KINDS + ['register', 'subscribe'])
+        ri = rng.randrange(len(w.regs))
+        ar = rng.choice([0, 1, 1, 1, 2, 2])
+        req = tuple(rng.choice(w.keyspecs()) for _ in range(ar))
+        prov = rng.choice(w.P)
+        name = rng.choice(['', '', 'a'])
+        e = None
+        if k == 'register':
+            e = (ri, 'register', (req, prov, name, w.newval()))
+        elif k == 'unregister':
+            regd = [x for x in log if x[1] == 'register']
+            if not regd:
+                return None
+            x = rng.choice(regd)
+            e = (x[0], 'unregister', x[2][:3])
+        elif k == 'subscribe':
+            e = (ri, 'subscribe', (req, rng.choice(w.P + [None]), w.newval()))
+        elif k == 'unsubscribe':
+            subd = [x for x in log if x[1] == 'subscribe']
+            if not subd:
+                return None
+            x = rng.choice(subd)
+            e = (x[0], 'unsubscribe', x[2][:2] + ((x[2][2],) if rng.random() < .5 else ()))
+        elif k == 'registry_bases':
+            i = rng.randrange(len(w.regs))
+            idx = rng.sample(range(i), min(i, rng.choice([0, 1, 1, 2])))
+            try:
+                w.pyreg[i].__bases__ = tuple(w.pyreg[j] for j in idx) or (object,)
+            except TypeError:
+                return None
+            e = (i, 'bases', idx)
+        elif k == 'spec_bases':
+            if len(w.R) < 2:
+                return None
+            i = rng.randrange(1, len(w.R))
+            nb = tuple(rng.sample(w.R[:i], min(i, rng.choice([0, 1, 2])))) or (Interface,)
+            ctx.op('spec_bases', w.R[i].__name__, nm(nb))
+            w.R[i].__bases__ = nb
+            return k
+        elif k == 'class_declaration':
+            c = rng.choice(w.classes)
+            sel = rng.sample(w.R, rng.randint(0, min(2, len(w.R))))
+            only = rng.random() < .3
+            ctx.op('class_declaration', c.__name__, nm(sel), only)
+            (classImplementsOnly if only else classImplements)(c, *sel)
+            return k
+        elif k == 'object_declaration':
+            o = rng.choice(w.objs)
+            sel = rng.sample(w.R, rng.randint(0, min(2, len(w.R))))
+            r = rng.random()
+            ctx.op('object_declaration', o.zname, nm(sel), round(r, 2))
+            if r < .4:
+                directlyProvides(o, *sel)
+            elif r < .7:
+                alsoProvides(o, *sel)
+            elif sel:
+                try:
+                    noLongerProvides(o, sel[0])
+                except ValueError:
+                    pass
+            return k
+        ctx.op(e[1], e[0], *[nm(a) if not isinstance(a, (str, Val)) else repr(a) for a in e[2]])
+        log.append(e)
+        apply(w.regs, e)
+        # keep the model in step for the second opinion
+        if e[1] == 'register':
+            key = (w.norm(e[2][0]), e[2][1], e[2][2])
+            w.adapters[e[0]].pop(key, None)
+            w.adapters[e[0]][key] = e[2][3]
+        elif e[1] == 'unregister':
+            w.adapters[e[0]].pop((w.norm(e[2][0]), e[2][1], e[2][2]), None)
+        return k
+
+    seen = []          # (query, last cold answer)
+    kinds = []
+    for step in range(rng.randint(4, 30 if big else 18)):
+        k = mutate()
+        if k is None:
+            continue
+        kinds.append(k)
+        qs = seen[-14:] + [(newq(), None) for _ in range(4)]
+        cr = cold()
+        nxt = []
+        for q, prev in qs:
+            wa = ask(w.regs, q)
+            ca = ask(cr, q)
+            ctx.ev()
+            ctx.count('probes')
+            if not same(wa, ca):
+                ctx.violation('warm-differs-from-cold', {
+                    'entry': q[0], 'registry': q[1], 'required': nm(q[2]) if q[2] is not None else [o.zname if hasattr(o, 'zname') else 'super' for o in q[5]],
+                    'provided': nm(q[3]), 'name': q[4], 'warm': repr(wa) if wa is not D else 'default',
+                    'cold': repr(ca) if ca is not D else 'default', 'after_mutation': k})
+            if prev is not None:
+                ctx.count('pair[%s,%s]' % (q[0], k))
+                if not same(prev[0], ca):
+                    ctx.count('answers_changed_by_mutation')
+                    ctx.count('changed[%s]' % k)
+                    w.nontrivial = True
+            # cache-hit confirmation: asking again must not recompute
+            lk = w.regs[q[1]]._v_lookup
+            n0 = lk.n_uncached
+            wa2 = ask(w.regs, q)
+            if lk.n_uncached == n0:
+                ctx.count('cache_hits_confirmed')
+            if not same(wa, wa2):
+                ctx.violation('warm-not-stable', {'entry': q[0], 'registry': q[1]})
+            # second opinion from the model (unambiguous plain lookups only)
+            if q[0] == 'lookup':
+                exp, info = w.m_lookup(q[1], q[2], q[3], q[4])
+                ctx.ev()
+                if len(exp) == 1 and not (wa is exp[0] or (exp[0] is None and wa is D)):
+                    ctx.violation('warm-and-cold-differ-from-model', {'entry': 'lookup', 'registry': q[1], 'required': nm(q[2]),
+                                                                      'provided': nm(q[3]), 'name': q[4], 'warm': repr(wa), 'model': repr(exp)})
+            nxt.append((q, (ca,)))
+        seen = (seen + nxt[-4:])[-40:]
+        # refresh stored cold answers of re-probed queries
+        upd = {id(q): a for q, a in nxt}
+        seen = [(q, upd.get(id(q), a)) for q, a in seen]
+        if rng.random() < .25:
+            gc.collect()
+    ctx.shape(('c05', tuple(kinds)), nontrivial=getattr(w, 'nontrivial', False))
+
+
+# =============================================================================
+# C06  registries consult exactly their current base chain
+
+def run_c06(ctx, rng, job):
+    w = RW(ctx, rng, job['tier'], with_objs=False, maxregs=5, chainy=True)
+    big = job['tier'] == 'thorough'
+    n = len(w.regs)
+    # distinguishing registrations in every member
+    probes = []
+    for ri in range(n):
+        for _ in range(rng.randint(1, 3)):
+            req, prov, name = w.rand_key(ar=rng.choice([0, 1, 1, 2]))
+            w.register(ri, req, prov, name, w.newval())
+            w.subscribe(ri, req, rng.choice([prov, None]), w.newval())
+    kinds = []
+
+    def check(tag):
+        for ri, reg in enumerate(w.regs):
+            chain = w.chain(ri)
+            ro_attr = getattr(reg, 'ro', None)
+            if w.flavour == 'verifying':
+                # verifying registries get no notifications: their ``ro`` is
+                # brought up to date by the generation check of the next lookup
+                reg.lookup((), Interface, '')
+                ro_attr = getattr(reg, 'ro', None)
+            if ro_attr is not None:
+                got = [w.index_of(r) for r in ro_attr]
+                ctx.ev()
+                ctx.count('ro_invariant_checks')
+                if got != chain:
+                    ctx.violation('registry-ro-stale', {'registry': ri, 'ro': got, 'c3_of_current_bases': chain, 'after': tag,
+                                                        'bases': [[w.index_of(b) for b in r.__bases__] for r in w.regs],
+                                                        'flavour': w.flavour}, mechanism=None)
+            for q in range(3):
+                lreq, lprov, lname = w.rand_query(ar=rng.choice([0, 1, 1, 2]))
+                if rng.random() < 0.6:
+                    # aim at a registration somewhere in the world
+                    rr = rng.randrange(n)
+                    if w.adapters[rr]:
+                        (kreq, kprov, kname) = rng.choice(list(w.adapters[rr]))
+                        lreq, lprov, lname = kreq, kprov, kname
+                exp, info = w.m_lookup(ri, lreq, lprov, lname, chain)
+                got = reg.lookup(lreq, lprov, lname)
+                ctx.ev()
+                ctx.count('behaviour_probes')
+                if info['depth']:
+                    ctx.count('probes_answered_by_an_ancestor')
+                if not any(got is e for e in exp):
+                    ctx.violation('chain-lookup-wrong', {'registry': ri, 'required': nm(lreq), 'provided': nm(lprov), 'name': lname,
+                                                         'got': repr(got), 'expected_one_of': repr(exp), 'chain': chain, 'after': tag,
+                                                         'ro': [w.index_of(r) for r in reg.ro], 'flavour': w.flavour})
+                names = w.m_names(ri, lreq, lprov, chain)
+                la = dict(reg.lookupAll(lreq, lprov))
+                ctx.ev()
+                if set(la) != names:
+                    ctx.violation('chain-lookupAll-wrong', {'registry': ri, 'got': sorted(la), 'expected': sorted(names), 'chain': chain, 'after': tag})
+                sprov = rng.choice([lprov, None])
+                se = w.m_subscriptions(ri, lreq, sprov, chain)
+                sg = reg.subscriptions(lreq, sprov)
+                w.check_subscriptions(sg, se, {'registry': ri, 'required': nm(lreq), 'provided': nm(sprov), 'chain': chain, 'after': tag})
+
+    check('initial')
+    for step in range(rng.randint(2, 14 if big else 8)):
+        r = rng.random()
+        if r < 0.55 and n > 1:
+            i = rng.randrange(1, n)
+            parents = [k for k in range(1, n) if any(w.regs[k] in x.__bases__ for x in w.regs)]
+            if parents and rng.random() < 0.7:
+                i = rng.choice(parents)        # re-base a registry that others are based on
+            idx = rng.sample(range(i), min(i, rng.choice([0, 1, 1, 2, 2])))
+            try:
+                w.pyreg[i].__bases__ = tuple(w.pyreg[j] for j in idx) or (object,)
+            except TypeError:
+                continue
+            before = [w.chain(k) for k in range(n)]
+            ctx.op('registry_bases', i, idx)
+            w.regs[i].__bases__ = tuple(w.regs[j] for j in idx)
+            after = [w.chain(k) for k in range(n)]
+            below = [k for k in range(n) if k != i and before[k] != after[k]]
+            kinds.append('rebase')
+            ctx.count('rebasings')
+            if below:
+                ctx.count('rebasings_changing_a_descendant_chain')
+                w.nontrivial = True
+                if any(len(after[k]) >= 3 and i in after[k][2:] for k in below):
+                    ctx.count('rebasings_2plus_levels_above_a_descendant')
+            tag = 'rebase %d -> %s' % (i, idx)
+        elif r < 0.8:
+            ri = rng.randrange(n)
+            req, prov, name = w.rand_key(ar=rng.choice([0, 1, 1, 2]))
+            w.register(ri, req, prov, name, w.newval())
+            kinds.append('register')
+            tag = 'register in %d' % ri
+        elif r < 0.9:
+            ri = rng.randrange(n)
+            if not w.adapters[ri]:
+                continue
+            k = rng.choice(list(w.adapters[ri]))
+            w.unregister(ri, *k)
+            kinds.append('unregister')
+            tag = 'unregister in %d' % ri
+        else:
+            ri = rng.randrange(n)
+            req, prov, name = w.rand_key(ar=rng.choice([0, 1, 2]))
+            w.subscribe(ri, req, rng.choice([prov, None]), w.newval())
+            kinds.append('subscribe')
+            tag = 'subscribe in %d' % ri
+        check(tag)
+    _components_chain(ctx, rng, w)
+    ctx.shape(('c06', w.flavour, tuple(kinds), tuple(tuple(w.index_of(b) for b in r.__bases__) for r in w.regs)),
+              nontrivial=getattr(w, 'nontrivial', False))
+
+
+def _components_chain(ctx, rng, w):
+    """The same through Components.__bases__ (utilities and adapters registries)."""
+    from zope.interface.registry import Components
+    comps, mirror = [], []
+    for i in range(rng.randint(2, 4)):
+        idx = rng.sample(range(len(comps)), min(len(comps), rng.choice([0, 1, 1, 2])))
+        try:
+            pc = type('PC%d' % i, tuple(mirror[j] for j in idx) or (object,), {})
+        except TypeError:
+            idx = idx[:1]
+            pc = type('PC%d' % i, tuple(mirror[j] for j in idx) or (object,), {})
+        mirror.append(pc)
+        comps.append(Components('c%d' % i, tuple(comps[j] for j in idx)))
+    P = w.P[0]
+    utils = {}
+    for i, c in enumerate(comps):
+        if rng.random() < 0.8:
+            u = object()
+            utils[i] = u
+            c.registerUtility(u, P, 'u', event=False)
+
+    def expect(i):
+        order = util.c3(comps[i], lambda c: c.__bases__)
+        for c in order:
+            k = [j for j, x in enumerate(comps) if x is c][0]
+            if k in utils:
+                return utils[k]
+        return None
+
+    for step in range(rng.randint(1, 4)):
+        for i, c in enumerate(comps):
+            ctx.ev()
+            ctx.count('components_probes')
+            got = c.queryUtility(P, 'u')
+            if got is not expect(i):
+                ctx.violation('components-chain-wrong', {'components': i, 'bases': [[comps.index(b) for b in x.__bases__] for x in comps]},
+                              mechanism=None)
+        i = rng.randrange(1, len(comps))
+        idx = rng.sample(range(i), min(i, rng.choice([0, 1, 1, 2])))
+        try:
+            mirror[i].__bases__ = tuple(mirror[j] for j in idx) or (object,)
+        except TypeError:
+            continue
+        ctx.op('components_bases', i, idx)
+        comps[i].__bases__ = tuple(comps[j] for j in idx)
+        ctx.count('components_rebasings')
+    for i, c in enumerate(comps):
+        ctx.ev()
+        if c.queryUtility(P, 'u') is not expect(i):
+            ctx.violation('components-chain-wrong', {'components': i, 'bases': [[comps.index(b) for b in x.__bases__] for x in comps]})
+
+
+RUNNERS = {'C04': run_c04, 'C05': run_c05, 'C06': run_c06, 'C07': run_c07, 'C08': run_c08, 'C09': run_c09}
+
 
 
 def run_case(ctx, rng, job):
